@@ -289,6 +289,23 @@ Proof.
   rewrite E. reflexivity.
 Qed.
 
+(* the listing taken as a SNAPSHOT before the first deletion (`v = list(d.glob(PAT)); for x in v: x.unlink()`): if the snapshot
+   lists, in whatever order and with whatever repetitions, exactly the owned names that exist in the directory at that moment,
+   deleting its elements IS the cleanup step of `run` *)
+Theorem snapshot_delete_is_cleanup : forall (owned : name -> bool) (l : list name) (f : fs),
+  (forall n, In n l <-> (owned n = true /\ f n <> None)) ->
+  forall n, delete_all l f n = remove_owned owned f n.
+Proof.
+  intros owned l f H n. rewrite delete_all_spec. unfold remove_owned.
+  destruct (existsb (neqb n) l) eqn:E.
+  - apply existsb_exists in E. destruct E as [m [I e]]. destruct (neqb_spec n m) as [e'|]; [|discriminate]. subst m.
+    apply H in I. destruct I as [O _]. rewrite O. reflexivity.
+  - destruct (owned n) eqn:O; [|reflexivity]. destruct (f n) eqn:F; [|reflexivity]. exfalso.
+    assert (I : In n l) by (apply H; split; [exact O|rewrite F; discriminate]).
+    assert (T : existsb (neqb n) l = true).
+    { apply existsb_exists. exists n. split; [exact I|]. destruct (neqb_spec n n); [reflexivity|contradiction]. }
+    congruence.
+Qed.
 Lemma write_all_swap : forall a b r f n, fst a <> fst b ->
   write_all (a :: b :: r) f n = write_all (b :: a :: r) f n.
 Proof.
@@ -305,6 +322,14 @@ Proof.
   induction outs as [|[m c] r IH]; intros g h E n; [apply E|].
   cbn [write_all fold_left fst snd]. apply IH. intros x. unfold write. rewrite E. reflexivity.
 Qed.
+(* hence a run whose cleanup is such a loop is `run true`: history independent by run_history_independent *)
+Corollary snapshot_cleanup_run : forall owned l outs f,
+  (forall n, In n l <-> (owned n = true /\ f n <> None)) ->
+  forall n, write_all outs (delete_all l f) n = run true owned outs f n.
+Proof.
+  intros owned l outs f H n. unfold run. apply write_all_ext. intros x. apply snapshot_delete_is_cleanup. exact H.
+Qed.
+
 Theorem glob_write_invariant : forall outs outs', Permutation outs outs' -> NoDup (map fst outs) ->
   forall f n, write_all outs f n = write_all outs' f n.
 Proof.
